@@ -251,12 +251,14 @@ func C10(c *vh.Ctx) {
 	}
 	if c.Replay != "" {
 		var cs c10Case
-		if c.LoadReplay(&cs) == nil {
+		if c.LoadReplay(&cs) == nil && len(cs.Seq) > 0 {
 			one(cs)
+		} else {
+			c10FailingGuardWalks(c) // a case of that (small) family: run it whole
 		}
 		return
 	}
-	c.Rule(fmt.Sprintf("%d polluting scripts (in-place mutation of bindings at depth 1-3 (also of the values of permanent '!' bindings), of nested and top-level props, implicit and this-globals, Object/Array/String prototypes, JSON/Math built-ins, replacing or freezing members of the environment object, editing what _.out and _.match returned, polluting then failing) x %d probes + %d self-probing scripts; every ordered pair (polluter, probe), every triple (polluter, polluter, probe), and every self-probing script twice; through Interpreter.Exec with a shared compiled program and through Spec.Walk; with fresh and with shared caller bindings/props objects (also bindings that hold nothing but collections of Go types a JSON decoder does not produce); pairs and self-probes also with nil and with empty step properties; oracle: the probe's bindings and emissions equal its solo result, the caller's bindings and props are snapshot-equal afterwards. non-trivial = every sequence.", len(c10Polluters), len(c10Probes), len(c10Self)))
+	c.Rule(fmt.Sprintf("%d polluting scripts (in-place mutation of bindings at depth 1-3 (also of the values of permanent '!' bindings), of nested and top-level props, implicit and this-globals, Object/Array/String prototypes, JSON/Math built-ins, replacing or freezing members of the environment object, editing what _.out and _.match returned, polluting then failing) x %d probes + %d self-probing scripts; every ordered pair (polluter, probe), every triple (polluter, polluter, probe), and every self-probing script twice; through Interpreter.Exec with a shared compiled program and through Spec.Walk; with fresh and with shared caller bindings/props objects (also bindings that hold nothing but collections of Go types a JSON decoder does not produce); pairs and self-probes also with nil and with empty step properties; plus walks of several messages in which an earlier message is consumed without moving the machine and a later one meets a guard that fails; oracle: the probe's bindings and emissions equal its solo result, the caller's bindings and props are snapshot-equal afterwards. non-trivial = every sequence.", len(c10Polluters), len(c10Probes), len(c10Self)))
 	var idx uint64
 	// the caller's bindings hold nothing but collections of Go types: whoever writes into them writes into a copy
 	for _, via := range []string{"exec", "walk"} {
@@ -266,6 +268,9 @@ func C10(c *vh.Ctx) {
 				one(c10Case{Seq: []string{pol, pol}, Via: via, Share: true, Typed: true})
 			}
 		}
+	}
+	if c.Shard == 0 || c.Shards == 1 {
+		c10FailingGuardWalks(c)
 	}
 	// the caller supplies no step properties (nil) or empty ones: pairs and self-probes
 	for _, via := range []string{"exec", "walk"} {
@@ -319,4 +324,30 @@ func C10(c *vh.Ctx) {
 			}
 		}
 	}
+}
+
+// c10FailingGuardWalks: a walk of several messages in which an earlier one is consumed without moving the machine
+// and a later one meets a guard that fails: whatever the script threw, the caller's state is as it was.
+func c10FailingGuardWalks(c *vh.Ctx) {
+	for gi, guard := range []string{`throw "the guard's secret";`, `return 7;`, `_.bindings.a = 99; throw {toString: function() { return "object thrown"; }};`, `return null;`} {
+		for _, msgs := range [][]interface{}{{M{"zzz": 1.0}, M{"go": 1.0}}, {M{"go": 1.0}}, {M{"zzz": 1.0}, M{"zzz": 2.0}, M{"go": 1.0}, M{"go": 2.0}}} {
+			c.Eval()
+			spec := &core.Spec{Name: "t", Nodes: map[string]*core.Node{
+				"start": {Branches: &core.Branches{Type: "message", Branches: []*core.Branch{{Pattern: M{"go": "?g"}, GuardSource: &core.ActionSource{Interpreter: "ecmascript", Source: guard}, Target: "end"}}}},
+				"end":   {Branches: &core.Branches{Type: "message"}}}}
+			if err := spec.Compile(context.Background(), nil, true); err != nil {
+				continue
+			}
+			st := &core.State{NodeName: "start", Bs: c10Bindings()}
+			before := snap.Of(st)
+			if p, pm, where := vh.Trap(func() { spec.Walk(context.Background(), st, msgs, &core.Control{Limit: 10}, c10Props()) }); p {
+				c.Violation("C10/panic/walk-with-failing-guard/"+where, pm, map[string]interface{}{"guard": guard, "msgs": msgs})
+				continue
+			}
+			if snap.Of(st) != before {
+				c.Violation(fmt.Sprintf("C10/caller-state-modified-by-a-failing-guard/guard-%d", gi), fmt.Sprintf("a walk over %s with the guard %q changed the state it was given: bindings are now %s", rstep.Canon(msgs), guard, rstep.Canon(M(st.Bs))), map[string]interface{}{"guard": guard, "msgs": msgs})
+			}
+		}
+	}
+
 }
